@@ -1,7 +1,7 @@
 """scryer-prolog specific helpers shared by the rule modules (anchors located by def-path)."""
 import re
 
-from .core import AnchorLost, atom_of, hir_calls, matches_in, pat_leaves, res_name, walk
+from .core import AnchorLost, atom_of, hir_calls, matches_in, pat_leaves, res_name, short, walk
 
 INSTR = "instructions::Instruction::"
 _cache = {}
@@ -320,3 +320,60 @@ def operand_order_obligations(F, fn, R, prefix):
              % (desc, "/".join(sorted(oa)), "/".join(sorted(ob))) + ("" if ok else " — operands are swapped or mixed in this representation pair"),
              "%s (line %s)" % (F.where(fn), n["ln"]))
     return cnt
+
+
+def operand_use_obligations(F, fn, R, prefix):
+    """RF1: in a match over the operand pair of a binary arithmetic function, every arm that names a numeric
+    representation on both sides (Number::X(..), Number::Y(..)) computes from BOTH payloads: neither payload is
+    discarded by the pattern (`_`) nor left unused by the body, unless the arm only builds an error. An arm that
+    answers from one operand alone (e.g. "a bignum divisor always gives 0") is a value-blind shortcut.
+    Returns the number of arms examined."""
+    h = F.hir(fn)
+    params = [p.get("name") for p in h["params"] if p["k"] == "PBind"]
+    cnt = 0
+    for m in matches_in(h["body"], src=None):
+        s = m["scrut"]
+        if s["k"] != "Tup" or len(s["elems"]) != 2:
+            continue
+        e0, e1 = s["elems"]
+        n0 = res_name(e0) if e0["k"] == "Path" else None
+        n1 = res_name(e1) if e1["k"] == "Path" else None
+        if n0 not in params or n1 not in params or n0 == n1:
+            continue
+        for arm in m["arms"]:
+            for li, leaf in enumerate(pat_leaves(arm["pat"])):
+                if leaf["k"] != "PTuple" or len(leaf["pats"]) != 2:
+                    continue
+                sides = []
+                for q in leaf["pats"]:
+                    q = strip_ref(q)
+                    v = pat_variant_name(q)
+                    sides.append((v, q))
+                if not all(v and v.startswith("Number::") for v, _ in sides):
+                    continue
+                body_calls = [short(r) for _, r, _ in hir_calls(arm["body"])]
+                only_error = any(re.search(r"_error$", c) for c in body_calls) and not any(re.search(r"arena_from|arena_allocate|build_with", c) for c in body_calls)
+                if only_error:
+                    continue
+                cnt += 1
+                used = _locals(arm["body"])
+                lost = []
+                for (v, q), side in zip(sides, ("left", "right")):
+                    b = _bound(q)
+                    if not b:
+                        lost.append("%s operand (%s) is discarded by the pattern" % (side, v))
+                    elif not (b & used):
+                        lost.append("%s operand (%s) is bound but never used" % (side, v))
+                key = "%s:%s-%s" % (prefix, sides[0][0].split("::")[-1], sides[1][0].split("::")[-1])
+                R.ob(key, not lost, "%s arm for (%s, %s) at line %s: %s — the result cannot depend on that operand's value" %
+                     (short(fn), sides[0][0], sides[1][0], arm["ln"], "; ".join(lost) or "both operands used"), F.where(fn))
+    return cnt
+
+
+def pat_variant_name(q):
+    from .core import pat_variant
+    v = pat_variant(q)
+    if not v:
+        return None
+    parts = v.split("::")
+    return "::".join(parts[-2:])
